@@ -10,7 +10,7 @@ from lib import vlib
 from lib.vlib import Infra
 
 SPEC = os.path.join(vlib.SPECS, "fn")
-COUNT = {"C31": {"quick": 6000, "thorough": 150000}, "C29": {"quick": 4000, "thorough": 60000}}
+COUNT = {"C31": {"quick": 6000, "thorough": 1000000}, "C29": {"quick": 4000, "thorough": 200000}}
 CHUNK = 40000
 
 
